@@ -56,7 +56,7 @@ def build(shape, ranks, mode, lawful=False):
     kind, vs = shape
     variants = []
     for k, (vk, fl) in enumerate(vs):
-        fields = [field_of(c, mode, ranks[k][i] if ranks and ranks[k] else None, S.FNAMES[i] if vk == 'named' else None, lawful)
+        fields = [field_of(c, mode, ranks[k][i] if ranks and ranks[k] else None, S.fname(i, k, len(fl)) if vk == 'named' else None, lawful)
                   for i, c in enumerate(fl)]
         variants.append(V(S.VNAMES[k], vk, fields))
     t = T(kind, 'Ty', variants, [(x, {}) for x in traits_of(mode)])
